@@ -140,7 +140,7 @@ Definition union_all (parts : list (list N)) : list N := to_set (concat parts). 
 Definition is_2_part (alts : list N) (ballots : list (list N)) : option (list (list N)) :=
   match is_part ballots with
   | Some parts =>
-      if length parts =? 1 then Some parts
+      if length parts <=? 1 then Some parts
       else if (length parts =? 2) && set_eq (union_all parts) (to_set alts) then Some parts
       else None
   | None => None
@@ -236,7 +236,7 @@ Definition part_decide (ballots : list (list N)) : bool :=
 (* 2PART (the reading of the property text: AT MOST two distinct approval sets): any two approval sets are equal
    or disjoint, every approval set equals the first one (s) or one other (t), and if s and t differ they cover all
    the alternatives.  A profile without ballots has zero distinct approval sets and is a 2-partition in this
-   reading; is_2_part answers False on it (two_part_no_ballots_refuted). *)
+   reading (is_2_part answers (True, []) on it since /repo commit e589929). *)
 Definition part2_decide (alts : list N) (ballots : list (list N)) : bool :=
   part_decide ballots &&
   match ballots with
